@@ -20,9 +20,10 @@ fn c05_expression_multibyte_and_non_numeric() -> (bool, String) {
     (!bad.is_empty(), format!("evaluate_expression panics on {:?} (tried {:?})", bad, inputs))
 }
 
-/// bounded search: every string of length <= 4 over a small alphabet with multi-byte characters, quotes, operators, parens
+/// bounded search: every string of length <= 4 (thorough tier: 6) over a small alphabet with multi-byte characters, quotes, operators, parens
 fn c05_expression_search() -> (bool, String) {
     let alpha = ["é", "1", "+", "*", "'", "\"", "(", ")", "a", " ", "-", "€", "/", "%", "."];
+    let max_len = crate::bound(4, 6);
     let mut tried = 0u64;
     let mut stack: Vec<String> = vec![String::new()];
     while let Some(s) = stack.pop() {
@@ -32,13 +33,13 @@ fn c05_expression_search() -> (bool, String) {
                 return (true, format!("evaluate_expression panics on {:?}", s));
             }
         }
-        if s.chars().count() < 4 {
+        if s.chars().count() < max_len {
             for a in &alpha {
                 stack.push(format!("{}{}", s, a));
             }
         }
     }
-    (false, format!("{} strings", tried))
+    (false, format!("{} strings of <= {} characters over {:?}", tried, max_len, alpha))
 }
 
 pub fn witnesses() -> Vec<crate::W> {
